@@ -128,6 +128,43 @@ def bizmap_task(task):
                    dict(argv=argv, input=lines[k], expected=exp[k], observed=got), cls=c)
     if outs:
         sh.sample(dict(cmd=core.shq(argv), input=lines[0], output=outs[0]), cap=1)
+    # the same dates through the other exits of the business-day representation: count-weekday form and its count,
+    # business day of the year, day number
+    ords = [date.fromisoformat(e).toordinal() for e in exp]
+    ybase = {}
+    for (fmt, tag, fexp) in (
+            ("%Y-%m-%c-%w|%c", "ymcw", lambda o: "%s|%02d" % (cal.Day(o).ymcw(), cal.Day(o).cnt_mon)),
+            ("%jb", "yday-b", None),
+            ("ldn", "ldn", lambda o: "%d" % cal.Day(o).ldn)):
+        argv2 = [str(bindir / "dconv"), "-f", fmt]
+        r2 = run(argv2, stdin=("\n".join(lines) + "\n").encode(), cpu=60, wall=300)
+        sh.procs += 1
+        sh.check_san(r2, "san", "bizmap:%s:san" % tag)
+        outs2, _ = align_lines(lines, r2)
+        for k, got in enumerate(outs2):
+            o = ords[k]
+            if fexp is not None:
+                want = fexp(o)
+            else:
+                y = cal.Day(o).y
+                if y not in ybase:
+                    j1 = date(y, 1, 1).toordinal()
+                    ybase[y] = (j1, [0] * 367)
+                    n = 0
+                    for i in range(0, 366):
+                        if dur.is_bday(j1 + i):
+                            n += 1
+                        ybase[y][1][i + 1] = n
+                want = "%03db" % ybase[y][1][o - ybase[y][0] + 1]
+            if o > cal.ORD_MAX - 606 and tag == "ldn":
+                continue        # finding F1 of C01
+            c = ("bizmap", tag)
+            if got == want:
+                sh.ok("bizmap", c)
+            else:
+                sh.bad("bizmap", "bizmap:%s:err=%s" % (tag, addsweep.err_shape(got, ())),
+                       "dconv %s -f '%s' -> %r, %s is %s" % (lines[k], fmt, got, exp[k], want),
+                       dict(argv=argv2, input=lines[k], expected=want, observed=got), cls=c)
     return sh
 
 
@@ -180,7 +217,7 @@ def main(tier, seed):
                 "found by stepping over date.weekday(); N in +-%s + random up to 200000; every weekday as start "
                 "incl. weekend starts; (2) ddiff A B -f %%db for B = A (+) n business days must print n (inversion), "
                 "and for arbitrary pairs the Mon-Fri count of the half-open interval (either end open accepted); "
-                "(3) every YYYY-MM-DDb (all months%s, all indices) through dconv -f %%F. distinct_nontrivial = "
+                "(3) every YYYY-MM-DDb (all months%s, all indices) through dconv -f %%F, -f '%%Y-%%m-%%c-%%w|%%c', -f %%jb and -f ldn. distinct_nontrivial = "
                 "distinct (monitor, calendar, start weekday, n mod 5, sign, week-wrap)" %
                 (CALS, N_LIST, " of every third year" if quick else ""))
     ctx.assumptions = ["n = 0 is excluded by the statement",
